@@ -1376,8 +1376,36 @@ static void op_amrd(const std::vector< std::string > &w) {
       if (absorbed) {
         if (std::fabs(taudone - tau) > 1.e-8 * tau + 1.e-12 * kmax * smax)
           bad = "amrdensitygrid-absorbed-but-optical-depth-not-reached";
-        else if (it.get_index() >= nc || !in_box(amrd->_cells[it.get_index()]->get_geometry(), pf, 1.e-11, sc))
+        else if (it.get_index() >= nc) {
           bad = "amrdensitygrid-absorbed-outside-the-returned-cell";
+        } else {
+          // (when the optical depth is used up exactly on a periodic face the position has already
+          // been wrapped to the opposite face while the last cell is returned: compare modulo the
+          // box length on periodic axes, as for the Cartesian grid)
+          bool incell = false;
+          for (int kx = -1; kx <= 1 && !incell; ++kx)
+            for (int ky = -1; ky <= 1 && !incell; ++ky)
+              for (int kz = -1; kz <= 1 && !incell; ++kz) {
+                if ((kx && !amrd_per[0]) || (ky && !amrd_per[1]) || (kz && !amrd_per[2]))
+                  continue;
+                // an image along an axis only if the photon sits on a face of the box on that axis
+                const int kk[3] = {kx, ky, kz};
+                bool onface = true;
+                for (int i = 0; i < 3; ++i) {
+                  const double lo = amrd_box.get_anchor()[i], hi = lo + amrd_box.get_sides()[i];
+                  if (kk[i] && !(std::fabs(pf[i] - lo) <= 1.e-11 * sc[i] || std::fabs(pf[i] - hi) <= 1.e-11 * sc[i]))
+                    onface = false;
+                }
+                if (!onface)
+                  continue;
+                const CoordinateVector<> q(pf.x() + kx * amrd_box.get_sides().x(), pf.y() + ky * amrd_box.get_sides().y(),
+                                           pf.z() + kz * amrd_box.get_sides().z());
+                if (in_box(amrd->_cells[it.get_index()]->get_geometry(), q, 1.e-11, sc))
+                  incell = true;
+              }
+          if (!incell)
+            bad = "amrdensitygrid-absorbed-outside-the-returned-cell";
+        }
       } else {
         if (taudone > tau * (1. + 1.e-8))
           bad = "amrdensitygrid-escaped-although-optical-depth-was-reached";
